@@ -5,12 +5,15 @@ class Num (R : Type) extends Add R, Sub R, Mul R, Div R, Neg R where
   sqrt : R → R
   log : R → R
   abs : R → R
+  /-- real power `x ** y` -/
+  pow : R → R → R
 
 instance : Num Float where
   ofNat := Nat.toFloat
   sqrt := Float.sqrt
   log := Float.log
   abs := Float.abs
+  pow := Float.pow
 
 namespace Num
 /-- decimal literal `m / 10^d` -/
